@@ -207,7 +207,11 @@ def rule_r4(facts, col):
             sb = {b for b, _ in shr}
             if okt is not None:
                 r = body.reachable(okt, avoid=sb)
-                if agg_bb in r and okt not in sb:
+                early = [b for b in sb if body.dominates(b, fbb) or b == fbb]
+                if early:
+                    probs.append("the first Map is shrunk BEFORE the fixed re-map has succeeded: if that mmap fails, `?` drops a "
+                                 "Map that unmaps only the first half and the second half of the initial 2x mapping is leaked")
+                elif agg_bb in r and okt not in sb:
                     probs.append("a path builds Circ without shrinking the first Map")
             for b2, s in shr:
                 if not same_expr(body.rvalue_expr(s["rv"]), half):
